@@ -105,13 +105,17 @@ Theorem C02_whitespace_preserves_non_space : forall b,
 Proof. exact build_non_ws. Qed.
 Print Assumptions C02_whitespace_preserves_non_space.
 
-(* idempotent: full statement, and the part proved (no pre-line text in the tree) *)
-Definition C02_whitespace_idempotent_statement : Prop := pw_idempotent_statement.
-
-Theorem C02_whitespace_idempotent_partial : forall b f,
-  preline_free b -> pw f (fst (pw f b)) = pw f b.
+(* idempotent (text and returned flag), all five modes: processing a tree again
+   with the same incoming flag changes nothing -- so the once-per-ancestor
+   processing of elementToBox is harmless *)
+Theorem C02_whitespace_idempotent : forall b f, pw f (fst (pw f b)) = pw f b.
 Proof. exact pw_idempotent. Qed.
-Print Assumptions C02_whitespace_idempotent_partial.
+Print Assumptions C02_whitespace_idempotent.
+
+Theorem C02_whitespace_idempotent_text : forall m f t,
+  process_text m f (fst (process_text m f t)) = process_text m f t.
+Proof. exact process_text_idempotent. Qed.
+Print Assumptions C02_whitespace_idempotent_text.
 
 (* CSS Text 3, 4.1.1 for the five modes.
    normal / nowrap: the result is THE text obtained by replacing every maximal run
@@ -135,9 +139,17 @@ Theorem C02_whitespace_spec_pre_prewrap : forall m f t,
 Proof. exact whitespace_spec_pre. Qed.
 Print Assumptions C02_whitespace_spec_pre_prewrap.
 
-(* pre-line: full statement (evaluated on every generated pre-line text by
-   Check/C02.v, code 7), not proved *)
-Definition C02_whitespace_spec_preline_statement : Prop := whitespace_spec_preline_statement.
+(* pre-line: the text is cut at the line feeds, blanks next to a line feed are
+   removed, every other run of blanks becomes one space, the line feeds stay *)
+Theorem C02_whitespace_spec_preline : forall f t, t <> [] ->
+  process_text WPreLine f t =
+  (if f && has_prefix_sp (preline_spec t) then tl (preline_spec t) else preline_spec t,
+   has_suffix_sp (preline_spec t)).
+Proof.
+  intros f t Hne. rewrite (process_text_core WPreLine f t Hne). cbn [space_collapse].
+  rewrite whitespace_spec_preline. reflexivity.
+Qed.
+Print Assumptions C02_whitespace_spec_preline.
 
 (* in the collapsing modes (normal, nowrap, pre-line) no tab and no two adjacent
    spaces survive: a collapsible run yields at most one space *)
